@@ -20,11 +20,16 @@ Theorem c07_orientation : forall sr nb asc, 0 < sr -> (0 < nb)%Z ->
 Proof. exact orientation_sign. Qed.
 Print Assumptions c07_orientation.
 
-Theorem c07_fine_bin : forall fch1 cbw start_chan L c m, (0 < L)%Z -> (L mod 2 = 0)%Z -> (0 <= m < L)%Z ->
+Theorem c07_fine_bin : forall fch1 cbw start_chan L c m, (0 < L)%Z -> (0 <= m < L)%Z ->
   fine_label fch1 cbw start_chan L (c * L + shift L m)
   == coarse_centre fch1 cbw start_chan c + zq (bin_offset L m) * (cbw / zq L).
 Proof. exact fine_bin_label. Qed.
 Print Assumptions c07_fine_bin.
+
+Theorem c07_fine_label_even : forall fch1 cbw start_chan L g, (0 < L)%Z -> (L mod 2 = 0)%Z ->
+  fine_label fch1 cbw start_chan L g == (fch1 + zq start_chan * cbw - cbw / 2) + zq g * (cbw / zq L).
+Proof. exact fine_label_even. Qed.
+Print Assumptions c07_fine_label_even.
 
 Theorem c07_fine_bins_uniform : forall fch1 cbw start_chan L g, ~ zq L == 0 ->
   fine_label fch1 cbw start_chan L (g + 1) - fine_label fch1 cbw start_chan L g == cbw / zq L.
